@@ -32,6 +32,8 @@ def spaces(tier):
             dict(size=1, level=2, cfg='K0', t0=['empty', 'dir_d', 'dir_d_e', 'file_d'], mut='none', kw=longp),
             dict(size=2, level=1, cfg='K0', t0=['empty', 'dir_d_j'], mut='none', kw=small, faults='mkdir'),
             dict(family='pairs', size=1, level=1, cfg='K0', t0=['empty'], mut='none', faults='mkdir'),
+            dict(size=2, level=2, cfg='K0', t0=['empty', 'dir_d'], mut='none',
+                 kw=dict(paths=['d/e/z', 'd/e/w', 'd/x'], bf_modes=['ok', 'rb', 'ra', 'nc'], sb_modes=['ok'])),
         ]
     return [
         dict(size=1, level=1, cfg='K0', t0=list(gen.T0S), mut='rel', kw=excs),
